@@ -376,6 +376,16 @@ impl CoreInner {
 		let mut active_memtable = self.active_memtable.write()?;
 
 		if active_memtable.is_empty() {
+			// Nothing to flush. But an insert that does not fit (a transaction larger
+			// than the arena) leaves the arena exhausted even though nothing was
+			// inserted: keep that memtable and every later commit fails with ArenaFull.
+			// Give the store a fresh one, paired with the segment that is active now.
+			if active_memtable.is_arena_exhausted() {
+				let wal_number = self.wal.read().get_active_log_number();
+				let fresh = Arc::new(MemTable::new(self.opts.max_memtable_size));
+				fresh.set_wal_number(wal_number);
+				*active_memtable = fresh;
+			}
 			return Ok(());
 		}
 
